@@ -602,4 +602,79 @@ theorem getCookie_of_signed (L : Lib) (hb : B64Contract L) (name : Str) (value :
     | none => rfl
     | some p => rfl
 
+/-! ### one request object: the cached cookies always belong to the header it carries -/
+
+/-- what is cached is what parsing the current `HTTP_COOKIE` gives -/
+def Coherent (L : Lib) (r : Req) : Prop := ∀ c, r.cache = some c → L.load (r.hdr.getD []) = .ok c
+
+theorem coherent_fresh (L : Lib) (h : Option Str) : Coherent L { hdr := h, cache := none } := by
+  intro c hc; cases hc
+
+theorem setItem_coherent (L : Lib) (r : Req) (k v : Str) (hc : Coherent L r) : Coherent L (r.setItem k v) := by
+  unfold Req.setItem
+  split
+  · split
+    · exact hc
+    · exact coherent_fresh L _
+  · split
+    · intro c h; cases h
+    · exact hc
+
+theorem setItem_hdr (r : Req) (v : Str) : (r.setItem cookieKey v).hdr = some v := by
+  unfold Req.setItem
+  simp only [beq_self_eq_true, if_true]
+  split
+  · rename_i h; simpa using h
+  · rfl
+
+theorem setItem_other_hdr (r : Req) (k v : Str) (hk : k ≠ cookieKey) : (r.setItem k v).hdr = r.hdr := by
+  unfold Req.setItem
+  have : (k == cookieKey) = false := by simpa using hk
+  simp only [this, Bool.false_eq_true, if_false]
+  split <;> rfl
+
+theorem delItem_coherent (L : Lib) (r : Req) (k : Str) (hc : Coherent L r) : Coherent L (r.delItem k) := by
+  unfold Req.delItem
+  have h1 := setItem_coherent L r k [] hc
+  split
+  · rename_i hk
+    simp only [beq_iff_eq] at hk
+    subst hk
+    intro c hcache
+    have hh := setItem_hdr r []
+    have := h1 c hcache
+    simp only [hh, Option.getD_some] at this
+    simpa using this
+  · exact h1
+
+theorem delItem_hdr (r : Req) : (r.delItem cookieKey).hdr = none := by
+  simp [Req.delItem]
+
+theorem delItem_other_hdr (r : Req) (k : Str) (hk : k ≠ cookieKey) : (r.delItem k).hdr = r.hdr := by
+  unfold Req.delItem
+  have : (k == cookieKey) = false := by simpa using hk
+  simp only [this, Bool.false_eq_true, if_false]
+  exact setItem_other_hdr r k [] hk
+
+/-- a read on a coherent request object is a read of the header it carries; it keeps header and coherence -/
+theorem req_getCookie (L : Lib) (r : Req) (hc : Coherent L r) (key : Str) (secret : Bytes) :
+    (r.getCookie L key secret).1 = getCookie L (r.hdr.getD []) key secret ∧
+    (r.getCookie L key secret).2.hdr = r.hdr ∧ Coherent L (r.getCookie L key secret).2 := by
+  unfold Req.getCookie Req.cookies getCookie
+  cases hcache : r.cache with
+  | some c =>
+    simp only [hc c hcache]
+    exact ⟨trivial, trivial, hc⟩
+  | none =>
+    simp only
+    cases hl : L.load (r.hdr.getD []) with
+    | error e => simp only; exact ⟨trivial, trivial, hc⟩
+    | ok c =>
+      simp only
+      refine ⟨trivial, trivial, ?_⟩
+      intro c' hc'
+      simp only [Option.some.injEq] at hc'
+      subst hc'
+      exact hl
+
 end Ombott.Cookies
